@@ -199,13 +199,20 @@ def build_vmodel():
                     [os.path.getmtime(os.path.join(tdir, f)) for f in os.listdir(tdir) if f.endswith(".vo")])
         if os.path.exists(VMODEL) and os.path.getmtime(VMODEL) >= dep_m:
             return True, "cached"
+        for f in os.listdir(EXTRACT):
+            if f.endswith((".ml", ".mli", ".cmi", ".cmx", ".o")):
+                os.unlink(os.path.join(EXTRACT, f))
         rc, out = sh(["coqc", "-noglob", "-Q", tdir, "DV", os.path.join(COQ, "extract", "Extract.v")],
                      cwd=EXTRACT, timeout=900)
         if rc != 0:
             return False, out
         shutil.copy(os.path.join(VERIF, "ocaml", "driver.ml"), os.path.join(EXTRACT, "driver.ml"))
-        rc, out2 = sh(["ocamlfind", "ocamlopt", "-O2" if False else "-inline", "20", "-package", "str", "-linkpkg", "-w", "-a",
-                       "vmodel_ext.mli", "vmodel_ext.ml", "driver.ml", "-o", "vmodel.tmp"], cwd=EXTRACT, timeout=900)
+        mls = [f for f in os.listdir(EXTRACT) if f.endswith((".ml", ".mli"))]
+        rc, order = sh(["ocamlfind", "ocamldep", "-sort"] + mls, cwd=EXTRACT)
+        if rc != 0:
+            return False, out + order
+        rc, out2 = sh(["ocamlfind", "ocamlopt", "-inline", "20", "-package", "str", "-linkpkg", "-w", "-a"] +
+                      order.split() + ["-o", "vmodel.tmp"], cwd=EXTRACT, timeout=900)
         if rc != 0:
             return False, out + out2
         os.replace(os.path.join(EXTRACT, "vmodel.tmp"), VMODEL)
